@@ -81,8 +81,8 @@ def stmt_range(src, line):
       # compound statement: its header (all expressions outside the nested blocks)
       hi = node.lineno
       for field, val in ast.iter_fields(node):
-        if field in ('body', 'orelse', 'handlers', 'finalbody', 'cases'):
-          continue
+        if field in ('body', 'orelse', 'handlers', 'finalbody', 'cases', 'decorator_list'):
+          continue    # (each decorator is a logical line of its own: the signature starts at `def` / `class`)
         for v in (val if isinstance(val, list) else [val]):
           if isinstance(v, ast.AST):
             for sub in ast.walk(v):
